@@ -102,4 +102,16 @@ def nodesWithId (nodes : List α) (values : List L) (missing : Option (List Bool
       some (((nodes.zip values).zip m).filterMap fun p => if p.2 then none else some p.1)
     else none
 
+
+/-! ## the entry point on integer arrays: `np.asarray(…, dtype=np.int64)` -/
+/-- numpy's cast of an integer array to int64: two's-complement wrap-around (identity on the int64
+range; uint64 values ≥ 2^63 become negative) -/
+def toInt64 (x : Int) : Int := (x + 2 ^ 63) % 2 ^ 64 - 2 ^ 63
+
+/-- `validate_tracklets(node_ids, edge_ids, tracklet_ids)` on integer arrays: all three are cast
+to int64 first, so the tracklet ids printed in the messages are the cast ones -/
+def trackletErrorsInt64 (nodes labels : List Int) (edges : List (Int × Int)) : List (Int × Verdict Int) :=
+  trackletErrors ((nodes.map toInt64).zip (labels.map toInt64))
+    (edges.map fun e => (toInt64 e.1, toInt64 e.2))
+
 end Geff.Tracklet
